@@ -167,7 +167,10 @@ def main(argv):
     for cfg, rules in res.items():
         for r in rules:
             st = r.status()
-            print("RULE %s %s [%s] instances=%d floor=%d %s" % (r.id, r.kind, cfg, r.instances, r.floor, st))
+            shown = {"VIOLATION": "findings", "BROKEN": "broken", "ok": "ok"}[st]
+            if st == "VIOLATION" and all(f.key in known for f in r.findings):
+                shown = "known-findings-only"
+            print("RULE %s %s [%s] instances=%d floor=%d %s" % (r.id, r.kind, cfg, r.instances, r.floor, shown))
             for b in r.broken:
                 print("  BROKEN: %s" % b)
             if r.instances < r.floor and not r.broken:
